@@ -257,6 +257,10 @@ func (ex *Exec) concretize2(t *Term, limit int, why string, soft bool) (uint64, 
 	if ex.pos < len(ex.prefix) {
 		d := ex.prefix[ex.pos]
 		ex.pos++
+		if d.Kind == 's' && soft {
+			ex.decs = append(ex.decs, d)
+			return 0, false
+		}
 		if d.Kind != 'v' {
 			panic(stopf(StopUnsupported, "ENGINE nondeterminism: expected decision kind %c got v", d.Kind))
 		}
@@ -292,6 +296,10 @@ func (ex *Exec) concretize2(t *Term, limit int, why string, soft bool) (uint64, 
 		vals = append(vals, v)
 		if len(vals) > limit {
 			if soft {
+				// remember the outcome so that re-executions take the same route
+				ex.decs = append(ex.decs, Decision{'s', 0})
+				ex.pos = len(ex.decs)
+				ex.prefix = ex.decs
 				return 0, false
 			}
 			panic(stopf(StopShape, "concretize %s: more than %d feasible values", why, limit))
